@@ -579,4 +579,29 @@ theorem C19_legacy_list_negative_index_witness :
     let l := (((Legacy.LLst.new 1 none 0 false).set 2 ⟨0, 7⟩).1.set 3 ⟨0, 8⟩).1
     l.get 0 = .val ⟨0, 8⟩ := by decide
 
+/-! ## membership (`IN`) -/
+
+/-- **`x IN aggregate` refines**: in every reachable state the containers' membership test (`__contains__`, present when
+the regenerated `membershipDefined` holds) answers what ISO 10303-11 12.2.3 defines for the EXPRESS value the container
+stands for — some element has the value of `x`, by value equality; unset ARRAY elements match nothing — for every
+declaration, history and value. -/
+theorem C19_membership_refines (d : Decl) (s : Agg) (h : Reachable d s) (x : Val) :
+    s.contains x = member d (abs s) x := by
+  have hi := reachable_inv h
+  cases s with
+  | arr a =>
+    have hv : ArrInv d a := hi
+    simp only [Agg.contains, abs, member]
+    rw [← hv.lo, hv.hi]
+    simp only [Option.getD_some]
+    exact decide_eq_decide.mpr (by rw [map_indices_absArr a hv.len])
+  | lst l => rfl
+  | bag b =>
+    simp only [Agg.contains, abs, member]
+    exact decide_eq_decide.mpr (keyMem_sortL x.key b.cells).symm
+  | set s =>
+    simp only [Agg.contains, abs, member]
+    exact decide_eq_decide.mpr (keyMem_sortL x.key s.cells).symm
+
+
 end StepModel.PyAgg
